@@ -49,7 +49,7 @@ Proof. reflexivity. Qed.
 Lemma print_Div m bb ba bs :
   print (Div m bb ba bs) =
   (repeat c_colon (2 + colon_height (Div m bb ba bs)) ++ div_name)
-    :: blank_if bb ++ print_seq bs ++ blank_lines ba ++ [repeat c_colon (2 + colon_height (Div m bb ba bs))].
+    :: blank_lines bb ++ print_seq bs ++ blank_lines ba ++ [repeat c_colon (2 + colon_height (Div m bb ba bs))].
 Proof. reflexivity. Qed.
 
 Definition fence_of (b : blk) : str :=
@@ -61,7 +61,7 @@ Definition fence_of (b : blk) : str :=
 Lemma print_Dir m fk os n bb ba bs :
   print (Dir m fk os n bb ba bs) =
   (fence_of (Dir m fk os n bb ba bs) ++ dir_name)
-    :: opt_lines os n ++ blank_if bb ++ print_seq bs ++ blank_lines ba ++ [fence_of (Dir m fk os n bb ba bs)].
+    :: opt_lines os n ++ blank_lines bb ++ print_seq bs ++ blank_lines ba ++ [fence_of (Dir m fk os n bb ba bs)].
 Proof. destruct fk; reflexivity. Qed.
 
 Fixpoint height_seq (bs : list blk) : nat :=
@@ -72,11 +72,11 @@ Proof. reflexivity. Qed.
 Lemma height_Item m bs : height (ListItem m bs) = height_seq bs.
 Proof. reflexivity. Qed.
 Lemma height_Div m bb ba bs :
-  height (Div m bb ba bs) = (1 + (if bb then 1 else 0) + height_seq bs + ba + 1)%nat.
+  height (Div m bb ba bs) = (1 + bb + height_seq bs + ba + 1)%nat.
 Proof. reflexivity. Qed.
 Lemma height_Dir m fk os n bb ba bs :
   height (Dir m fk os n bb ba bs) =
-  (1 + length (opt_lines os n) + (if bb then 1 else 0) + height_seq bs + ba + 1)%nat.
+  (1 + length (opt_lines os n) + bb + height_seq bs + ba + 1)%nat.
 Proof. reflexivity. Qed.
 
 Lemma locate_Quote start m bs : locate start (Quote m bs) = (m, start) :: locate_seq start bs.
@@ -84,11 +84,11 @@ Proof. reflexivity. Qed.
 Lemma locate_Item start m bs : locate start (ListItem m bs) = (m, start) :: locate_seq start bs.
 Proof. reflexivity. Qed.
 Lemma locate_Div start m bb ba bs :
-  locate start (Div m bb ba bs) = (m, start) :: locate_seq (start + 1 + (if bb then 1 else 0))%nat bs.
+  locate start (Div m bb ba bs) = (m, start) :: locate_seq (start + 1 + bb)%nat bs.
 Proof. reflexivity. Qed.
 Lemma locate_Dir start m fk os n bb ba bs :
   locate start (Dir m fk os n bb ba bs) =
-  (m, start) :: locate_seq (start + 1 + length (opt_lines os n) + (if bb then 1 else 0))%nat bs.
+  (m, start) :: locate_seq (start + 1 + length (opt_lines os n) + bb)%nat bs.
 Proof. reflexivity. Qed.
 
 (* ---------- sizes ---------- *)
@@ -103,9 +103,9 @@ Proof.
   - rewrite height_Quote, print_Quote. unfold prefix_all. rewrite map_length. assumption.
   - rewrite height_Item, print_Item, prefix_item_length. assumption.
   - rewrite height_Div, print_Div. cbn [length]. rewrite !app_length. cbn [length].
-    unfold blank_lines. rewrite repeat_length. destruct bb; cbn [blank_if length]; lia.
+    unfold blank_lines. rewrite !repeat_length. lia.
   - rewrite height_Dir, print_Dir. cbn [length]. rewrite !app_length. cbn [length].
-    unfold blank_lines. rewrite repeat_length. destruct bb; cbn [blank_if length]; lia.
+    unfold blank_lines. rewrite !repeat_length. lia.
   - reflexivity.
   - destruct bs as [|y r]; [cbn; rewrite IHb; reflexivity|].
     cbn [height_seq print_seq] in *. rewrite app_length. cbn [length]. lia.
@@ -127,11 +127,11 @@ Definition plain_start (b : blk) : bool :=
 (* A ':::' fence directly after the opening line of a backtick directive, or directly after ':key:' option lines,
    would be read as an option line by parse_directive_text (MyST cannot express that layout); directly after the
    opening line of a colon directive it is handled by the renderer's prepended-line trick. *)
-Definition first_ok (fk : fencekind) (os : optstyle) (bb : bool) (bs : list blk) : bool :=
+Definition first_ok (fk : fencekind) (os : optstyle) (bb : nat) (bs : list blk) : bool :=
   match bs with
   | [] => true
   | b :: _ =>
-      bb || match os with
+      Nat.ltb 0 bb || match os with
             | DashOpts => true
             | ColonOpts => plain_start b
             | NoOpts => match fk with ColonFence => true | Backtick => plain_start b end
@@ -191,7 +191,7 @@ Proof.
     + apply prefix_all_nosep; [reflexivity | assumption].
   - rewrite print_Div. constructor.
     + apply nosep_app. split; [apply nosep_repeat; reflexivity | reflexivity].
-    + apply Forall_app. split; [destruct bb; repeat constructor|].
+    + apply Forall_app. split; [apply Forall_repeat; reflexivity|].
       apply Forall_app. split; [assumption|].
       apply Forall_app. split; [apply Forall_repeat; reflexivity|].
       constructor; [apply nosep_repeat; reflexivity | constructor].
@@ -201,7 +201,7 @@ Proof.
     constructor.
     + apply nosep_app. split; [exact Hf | reflexivity].
     + apply Forall_app. split; [apply opt_lines_nosep|].
-      apply Forall_app. split; [destruct bb; repeat constructor|].
+      apply Forall_app. split; [apply Forall_repeat; reflexivity|].
       apply Forall_app. split; [assumption|].
       apply Forall_app. split; [apply Forall_repeat; reflexivity|].
       constructor; [exact Hf | constructor].
@@ -374,16 +374,19 @@ Proof. split; [reflexivity|]. split; [reflexivity|]. exists 107, [58; 32; 118]. 
 
 Lemma is_blank_nil : is_blank [] = true. Proof. reflexivity. Qed.
 
-(* the body lines after the option block: [B] = blank_if bb ++ children ++ trailing blanks *)
+(* parse_directive_text strips at most ONE leading blank line and adds exactly 1 to the offset *)
+Definition min1 (n : nat) : nat := match n with O => O | S _ => 1%nat end.
+
+(* the body lines after the option block: [bb] blank lines, the children, trailing blanks *)
 Lemma strip_blank_B bb ba (b1 : blk) (bs' : list blk) off :
   wf_seq (b1 :: bs') = true ->
-  strip_blank_line (blank_if bb ++ print_seq (b1 :: bs') ++ blank_lines ba) off =
-  (print_seq (b1 :: bs') ++ blank_lines ba, (off + if bb then 1 else 0)%Z).
+  strip_blank_line (blank_lines bb ++ print_seq (b1 :: bs') ++ blank_lines ba) off =
+  (blank_lines (Nat.pred bb) ++ print_seq (b1 :: bs') ++ blank_lines ba, (off + Z.of_nat (min1 bb))%Z).
 Proof.
-  intro Hw. destruct bb; cbn [blank_if app].
-  - unfold strip_blank_line. rewrite is_blank_nil. reflexivity.
+  intro Hw. destruct bb as [|k]; cbn [blank_lines repeat app Nat.pred min1].
   - destruct (print_seq_first b1 bs' Hw) as [l [rest [E P]]]. rewrite E. cbn [app].
     unfold strip_blank_line. rewrite (first_line_not_blank b1 l P). rewrite Z.add_0_r. reflexivity.
+  - unfold strip_blank_line. rewrite is_blank_nil. reflexivity.
 Qed.
 
 Section Nested.
@@ -404,22 +407,24 @@ Notation pdt := (parse_directive_text tokenize yaml_load sg first_line).
 (* without the prepended line *)
 Lemma dir_body_plain os n bb ba b1 bs' line r :
   wf_seq (b1 :: bs') = true ->
-  (bb = false -> os <> DashOpts -> plain_start b1 = true) ->
+  (bb = O -> os <> DashOpts -> plain_start b1 = true) ->
   pdt (text_before (dir_content os n bb ba (b1 :: bs'))) line true None = Ok r ->
-  r_body r = print_seq (b1 :: bs') ++ blank_lines ba /\
-  r_body_offset r = Z.of_nat (length (opt_lines os n) + (if bb then 1 else 0)).
+  r_body r = blank_lines (Nat.pred bb) ++ print_seq (b1 :: bs') ++ blank_lines ba /\
+  r_body_offset r = Z.of_nat (length (opt_lines os n) + min1 bb).
 Proof.
   intros Hw Hfirst H.
-  set (B := blank_if bb ++ print_seq (b1 :: bs') ++ blank_lines ba).
+  set (B := blank_lines bb ++ print_seq (b1 :: bs') ++ blank_lines ba).
   assert (HBns : Forall nosep B).
-  { unfold B. apply Forall_app. split; [destruct bb; repeat constructor|].
+  { unfold B. apply Forall_app. split; [apply Forall_repeat; reflexivity|].
     apply Forall_app. split; [apply print_seq_nosep | apply Forall_repeat; reflexivity]. }
   assert (Hns : Forall nosep (dir_content os n bb ba (b1 :: bs'))).
   { unfold dir_content. apply Forall_app. split; [apply opt_lines_nosep | exact HBns]. }
   pose proof (splitlines_text_before _ Hns) as Hsl.
-  assert (HhdB : bb = false -> exists l rest, B = l :: rest /\ first_line_prop b1 l).
-  { intros ->. unfold B. cbn [blank_if app].
+  assert (HhdB : bb = O -> exists l rest, B = l :: rest /\ first_line_prop b1 l).
+  { intros ->. unfold B. cbn [blank_lines repeat app].
     destruct (print_seq_first b1 bs' Hw) as [l [rest [E P]]]. rewrite E. cbn [app]. eauto. }
+  assert (HhdS : forall k, bb = S k -> hd_line B = []).
+  { intros k ->. reflexivity. }
   destruct (split_options (text_before (dir_content os n bb ba (b1 :: bs'))) line) as [[blk cl] l'] eqn:Es.
   pose proof (pdt_from_split _ _ _ _ _ _ _ _ _ _ _ _ H H_fl H_spec Es) as Hr.
   rewrite Hsl in Hr.
@@ -429,15 +434,15 @@ Proof.
     - (* no option block *)
       pose proof (split_options_none (text_before B) line) as Hn. rewrite Hsl, Es in Hn. cbn [fst snd] in Hn.
       apply Hn.
-      + destruct bb; [unfold B; reflexivity|].
+      + destruct bb as [|k]; [|rewrite (HhdS k eq_refl); reflexivity].
         destruct (HhdB eq_refl) as [l [rest [E P]]]. rewrite E. cbn [hd_line].
         apply (first_line_plain b1 l (Hfirst eq_refl ltac:(discriminate)) P).
-      + destruct bb; [unfold B; reflexivity|].
+      + destruct bb as [|k]; [|rewrite (HhdS k eq_refl); reflexivity].
         destruct (HhdB eq_refl) as [l [rest [E P]]]. rewrite E. cbn [hd_line].
         apply (first_line_plain b1 l (Hfirst eq_refl ltac:(discriminate)) P).
     - (* colon style *)
       assert (HB : is_colon_line (hd_line B) = false).
-      { destruct bb; [unfold B; reflexivity|].
+      { destruct bb as [|k]; [|rewrite (HhdS k eq_refl); reflexivity].
         destruct (HhdB eq_refl) as [l [rest [E P]]]. rewrite E. cbn [hd_line].
         apply (first_line_plain b1 l (Hfirst eq_refl ltac:(discriminate)) P). }
       rewrite <- (map_repeat (fun l => c_colon :: l) opt_text (S n)) in Hsl, Es.
@@ -449,7 +454,7 @@ Proof.
   destruct Hcl as [-> Hlen]. rewrite Hlen in Hr.
   unfold B in Hr. rewrite (strip_blank_B bb ba b1 bs' _ Hw) in Hr. injection Hr as Hb Ho.
   split; [exact Hb|]. rewrite Ho.
-  rewrite !Nat2Z.inj_add. destruct bb; lia.
+  rewrite !Nat2Z.inj_add. lia.
 Qed.
 
 (*NESTED-END*)
@@ -470,7 +475,7 @@ Lemma lblk_Item base idx m bs :
 Proof. reflexivity. Qed.
 Lemma lblk_Div base idx m bb ba bs :
   lblk base idx (Div m bb ba bs) =
-  (do r <- lseq (Z.of_nat idx + base + 1)%Z (if bb then 1 else 0)%nat bs; Ok ((m, (Z.of_nat idx + base + 1)%Z) :: r)).
+  (do r <- lseq (Z.of_nat idx + base + 1)%Z bb bs; Ok ((m, (Z.of_nat idx + base + 1)%Z) :: r)).
 Proof. reflexivity. Qed.
 
 Definition dir_hack (fk : fencekind) (content : str) : bool :=
@@ -489,7 +494,7 @@ Lemma lblk_Dir base idx m fk os n bb ba bs :
   | [] => Ok [(m, position)]
   | _ =>
       let d := (length cl' - length (r_body parsed))%nat in
-      let first_child := (length (opt_lines os n) + (if bb then 1 else 0) + prepended)%nat in
+      let first_child := (length (opt_lines os n) + bb + prepended)%nat in
       if lines_eqb (r_body parsed) (skipn d cl') && Nat.leb d first_child then
         do r <- lseq (position + (r_body_offset parsed - Z.of_nat prepended))%Z (first_child - d)%nat bs;
         Ok ((m, position) :: r)
@@ -501,16 +506,16 @@ Proof. reflexivity. Qed.
 Lemma hack_iff os n bb ba b1 bs' :
   wf_seq (b1 :: bs') = true ->
   startswith (text_before (dir_content os n bb ba (b1 :: bs'))) colons3 =
-  match os, bb with NoOpts, false => negb (plain_start b1) | _, _ => false end.
+  match os, bb with NoOpts, O => negb (plain_start b1) | _, _ => false end.
 Proof.
   intro Hw.
   assert (Hns : Forall nosep (dir_content os n bb ba (b1 :: bs'))).
   { unfold dir_content. apply Forall_app. split; [apply opt_lines_nosep|].
-    apply Forall_app. split; [destruct bb; repeat constructor|].
+    apply Forall_app. split; [apply Forall_repeat; reflexivity|].
     apply Forall_app. split; [apply print_seq_nosep | apply Forall_repeat; reflexivity]. }
   rewrite (startswith_hd_line colons3 _ ltac:(reflexivity)), (splitlines_text_before _ Hns).
   unfold dir_content. destruct os; cbn [opt_lines app repeat hd_line]; try reflexivity.
-  destruct bb; cbn [blank_if app hd_line]; [reflexivity|].
+  destruct bb as [|k]; cbn [blank_lines repeat app hd_line]; [|reflexivity].
   destruct (print_seq_first b1 bs' Hw) as [l [rest [E P]]]. rewrite E. cbn [app hd_line].
   destruct (plain_start b1) eqn:Ep; cbn [negb].
   - apply (first_line_plain b1 l Ep P).
@@ -531,8 +536,7 @@ Proof.
   - rewrite wf_Item in Hw. apply andb_true_iff in Hw as [_ Hw].
     rewrite lblk_Item, (IHb Hw base idx start Hs), locate_Item. cbn. rewrite Hs. reflexivity.
   - rewrite wf_Div in Hw. rewrite lblk_Div, locate_Div.
-    rewrite (IHb Hw _ _ (start + 1 + (if bb then 1 else 0))%nat); [cbn; rewrite Hs; reflexivity|].
-    destruct bb; lia.
+    rewrite (IHb Hw _ _ (start + 1 + bb)%nat); [cbn; rewrite Hs; reflexivity | lia].
   - rewrite wf_Dir in Hw. apply andb_true_iff in Hw as [Hfo Hw].
     rewrite lblk_Dir, locate_Dir. cbn zeta.
     destruct (O_parse_ok
@@ -543,38 +547,42 @@ Proof.
     destruct bs as [|b1 bs']; [cbn; rewrite Hs; reflexivity|].
     destruct (dir_hack fk (text_before (dir_content os n bb ba (b1 :: bs')))) eqn:Eh.
     + (* the prepended-line case: colon directive, no options, no blank, ':::' child *)
-      assert (Hcase : fk = ColonFence /\ os = NoOpts /\ bb = false).
+      assert (Hcase : fk = ColonFence /\ os = NoOpts /\ bb = O).
       { unfold dir_hack in Eh. destruct fk; [discriminate|]. rewrite (hack_iff _ _ _ _ _ _ Hw) in Eh.
         destruct os; destruct bb; try discriminate. auto. }
       destruct Hcase as [-> [-> ->]].
-      change (nl ++ text_before (dir_content NoOpts n false ba (b1 :: bs')))
-        with (text_before (dir_content NoOpts n true ba (b1 :: bs'))) in Hr.
-      destruct (dir_body_plain NoOpts n true ba b1 bs' _ r Hw ltac:(discriminate) Hr) as [Hb Ho].
-      rewrite Hb, Ho. cbn [opt_lines length plus].
-      unfold dir_content. cbn [opt_lines blank_if app].
+      change (nl ++ text_before (dir_content NoOpts n 0 ba (b1 :: bs')))
+        with (text_before (dir_content NoOpts n 1 ba (b1 :: bs'))) in Hr.
+      destruct (dir_body_plain NoOpts n 1 ba b1 bs' _ r Hw ltac:(discriminate) Hr) as [Hb Ho].
+      rewrite Hb, Ho. cbn [opt_lines length plus Nat.pred min1 blank_lines repeat app].
+      unfold dir_content. cbn [opt_lines blank_lines repeat app].
       unfold str in *.
       repeat match goal with |- context [(S ?x - ?x)%nat] => replace (S x - x)%nat with 1%nat by lia end.
       cbn [skipn]. rewrite lines_eqb_refl. cbn [andb Nat.leb Nat.sub].
       rewrite (IHb Hw _ _ (start + 1 + 0 + 0)%nat); [cbn; rewrite Hs; reflexivity | lia].
-    + assert (Hfirst : bb = false -> os <> DashOpts -> plain_start b1 = true).
-      { intros -> Hos. cbn [first_ok orb] in Hfo. destruct os; try congruence.
+    + assert (Hfirst : bb = O -> os <> DashOpts -> plain_start b1 = true).
+      { intros -> Hos. cbn [first_ok Nat.ltb Nat.leb orb] in Hfo. destruct os; try congruence.
         destruct fk; try congruence. unfold dir_hack in Eh. rewrite (hack_iff _ _ _ _ _ _ Hw) in Eh.
         destruct (plain_start b1); [reflexivity | discriminate]. }
       destruct (dir_body_plain os n bb ba b1 bs' _ r Hw Hfirst Hr) as [Hb Ho].
       rewrite Hb, Ho.
       assert (Hcl : dir_content os n bb ba (b1 :: bs') =
-                    (opt_lines os n ++ blank_if bb) ++ (print_seq (b1 :: bs') ++ blank_lines ba)).
-      { unfold dir_content. rewrite <- app_assoc. reflexivity. }
-      assert (Hd : (length (dir_content os n bb ba (b1 :: bs')) - length (print_seq (b1 :: bs') ++ blank_lines ba))%nat
-                   = length (opt_lines os n ++ blank_if bb)).
+                    (opt_lines os n ++ blank_lines (min1 bb)) ++
+                    (blank_lines (Nat.pred bb) ++ print_seq (b1 :: bs') ++ blank_lines ba)).
+      { unfold dir_content. rewrite <- app_assoc. f_equal. destruct bb as [|k]; reflexivity. }
+      assert (Hd : (length (dir_content os n bb ba (b1 :: bs')) -
+                    length (blank_lines (Nat.pred bb) ++ print_seq (b1 :: bs') ++ blank_lines ba))%nat
+                   = length (opt_lines os n ++ blank_lines (min1 bb))).
       { rewrite Hcl, app_length. lia. }
-      assert (Hlen : length (opt_lines os n ++ blank_if bb) = (length (opt_lines os n) + (if bb then 1 else 0))%nat).
-      { rewrite app_length. destruct bb; reflexivity. }
+      assert (Hlen : length (opt_lines os n ++ blank_lines (min1 bb)) = (length (opt_lines os n) + min1 bb)%nat).
+      { rewrite app_length. unfold blank_lines. rewrite repeat_length. reflexivity. }
+      assert (Hle : Nat.leb (length (opt_lines os n) + min1 bb) (length (opt_lines os n) + bb + 0) = true).
+      { apply Nat.leb_le. destruct bb; cbn [min1]; lia. }
       unfold str in *.
       rewrite Hd. rewrite Hcl at 1. rewrite skipn_app_length, lines_eqb_refl. cbn [andb].
-      rewrite Hlen, Nat.add_0_r, Nat.leb_refl, Nat.sub_diag.
-      rewrite (IHb Hw _ _ (start + 1 + length (opt_lines os n) + (if bb then 1 else 0))%nat);
-        [cbn; rewrite Hs; reflexivity | destruct bb; unfold str in *; lia].
+      rewrite Hlen, Hle.
+      rewrite (IHb Hw _ _ (start + 1 + length (opt_lines os n) + bb)%nat);
+        [cbn; rewrite Hs; reflexivity | destruct bb; cbn [min1]; unfold str in *; lia].
   - reflexivity.
   - cbn [wf_seq] in Hw. apply andb_true_iff in Hw as [Hb Hr].
     cbn [lines_seq locate_seq]. rewrite (IHb Hb base idx start Hs). cbn [bind].
